@@ -69,6 +69,9 @@ def check_c19(tier):
     # the source side of CountingWriter.ReadFrom (ReaderFaults.tla)
     from rf_checks import reader_faults
     reader_faults(rep, "C19", ["readfrom"], tier)
+    # instances of tens of MiB (thresholds in buffering / chunking code): Trace_Huge
+    from huge_checks import huge
+    huge(rep, "C19", "bundlefault")
     return rep.finish()
 
 
